@@ -12,6 +12,7 @@
 package c11
 
 import (
+	"bytes"
 	"encoding/json"
 	"errors"
 	"fmt"
@@ -315,6 +316,7 @@ type collector struct {
 	seen       map[uint64]struct{}
 	bysig      map[string]*vioRec
 	mapSamples int
+	lruSamples int
 }
 
 func newCollector() *collector {
@@ -932,7 +934,8 @@ func lruPass(c *collector, seed int64, perHistory, shard, of int) {
 				c.violation(sig, out.v.what+" — first calls: "+out.calls, k, out.stop)
 			default:
 				c.Evals++
-				if capy == 3+shard && ci == shard%len(lruClasses) {
+				if c.lruSamples < 1 {
+					c.lruSamples++
 					c.Samples = append(c.Samples, fmt.Sprintf("cache history (held): capacity %d, %s, %d calls %v, max nodes %d; first calls: %s", capy, cl.name, k.N, out.kinds, out.maxNodes, out.calls))
 				}
 			}
@@ -995,7 +998,7 @@ type plan struct {
 
 func planFor(thorough bool) plan {
 	if thorough {
-		return plan{mapDepth: 9, mapRandom: 40000, mapRandomLen: 1000, lruPerHistory: 50000, timingCycles: 60000}
+		return plan{mapDepth: 9, mapRandom: 100000, mapRandomLen: 1000, lruPerHistory: 50000, timingCycles: 60000}
 	}
 	return plan{mapDepth: 8, mapRandom: 4000, mapRandomLen: 1000, lruPerHistory: 5000, timingCycles: 20000}
 }
@@ -1078,9 +1081,11 @@ func TestCheck(t *testing.T) {
 			cmd := exec.Command(exe, "-test.run", "^TestCheck$", "-test.count", "1", "-test.timeout", "0")
 			cmd.Env = append(os.Environ(), "GOMAXPROCS=1", "VERIF_C11_OUT="+out,
 				"VERIF_TIER="+run.Tier(), fmt.Sprintf("VERIF_C11_SHARD=%d/%d/%d", i, of, run.Seed()))
-			cmd.Stderr = os.Stderr
-			cmd.Stdout = os.Stderr
+			var childOut bytes.Buffer
+			cmd.Stderr = os.Stderr // fatal runtime errors of a shard end up in the log of the run
+			cmd.Stdout = &childOut
 			if err := cmd.Run(); err != nil {
+				os.Stderr.Write(childOut.Bytes())
 				errs[i] = err
 				return
 			}
